@@ -1019,3 +1019,16 @@ def replay(doc):
   print('model:', fw.trunc(model, 2000))
   print('what :', doc.get('what'))
   return 1 if model != doc.get('impl') else 0
+
+
+# ---- end-to-end entry points: the verdict oracle of the bookkeeping model is instantiated by the
+# per-check models (Model/RsaAll.lean, Model/EcAll.lean; theorems Props/C16RsaAll, Props/C16EcAll)
+_base_correspondence = correspondence
+
+
+def correspondence(rep, rng, tier):
+  _base_correspondence(rep, rng, tier)
+  import corr.rsaall as rsaall
+  import corr.ecall as ecall
+  rsaall.correspondence(rep, rng, tier)
+  ecall.correspondence(rep, rng, tier)
